@@ -219,19 +219,19 @@ type Knobs struct {
 	// header are raised to these values (as if a long history lay behind), so
 	// that row ids and LSNs cross 2^8, 2^16, 2^24, 2^32 boundaries within a short run
 	BiasKey       uint32 `json:"bias_key,omitempty"`
-	BiasOffset    uint64 `json:"bias_offset,omitempty"` // allocation frontier raised after CREATE DATABASE (sparse file): page offsets cross 2^24 in short runs
-	BiasLSN       uint64 `json:"bias_lsn,omitempty"`    // C15 with ticks withheld: only the cache monitor and O-live are evaluated
-	CheckEvery    int    `json:"check_every,omitempty"` // full contents check every k statements (0/1 = every statement)
+	BiasOffset    uint64 `json:"bias_offset,omitempty"`    // allocation frontier raised after CREATE DATABASE (sparse file): page offsets cross 2^24 in short runs
+	BiasLSN       uint64 `json:"bias_lsn,omitempty"`       // C15 with ticks withheld: only the cache monitor and O-live are evaluated
+	CheckEvery    int    `json:"check_every,omitempty"`    // full contents check every k statements (0/1 = every statement)
 	SparseObserve bool   `json:"sparse_observe,omitempty"` // successful INSERTs are followed by an observer query only every CheckEvery statements (very large tables)
-	TreeEvery     int    `json:"tree_every,omitempty"`  // tree walk every k statements (0 = never)
+	TreeEvery     int    `json:"tree_every,omitempty"`     // tree walk every k statements (0 = never)
 	// Quiet: no observer query after a successful statement - every SELECT the
 	// oracle issues takes the store lock and runs the statement prologue, and a
 	// state that any next statement repairs (a flag cleared in lockShared, a
 	// page re-marked dirty by a fetch) is gone before anything that depends on
 	// it happens. Tables are compared at USE, restart, refusals, every
 	// CheckEvery-th statement and at the end only.
-	Quiet bool `json:"quiet,omitempty"`
-	NoAutoRecheck bool   `json:"-"`
+	Quiet         bool `json:"quiet,omitempty"`
+	NoAutoRecheck bool `json:"-"`
 }
 
 type Plan struct {
